@@ -219,6 +219,7 @@ structure Table where
   rowLine : Option (Array Nat) := none
   headerSkip : Nat := 0
   skips : List Nat := []
+  longest : Str := []                 -- the line the column boundaries were inferred from (kept for reporting)
   deriving Inhabited
 
 /-- `dict([(r, i) for i, r in enumerate(rows)])[key]`: a repeated name addresses its last row -/
@@ -276,6 +277,27 @@ def Table.getByName (t : Table) (key : Key) : Option RowView :=
       | some i => some (t.rowView i true)
       | none => none
     else none
+
+/-- `table[key]` for any key: an integer, a column name, a row name (possibly reversed); `none` is Python's `None` -/
+inductive Got where
+  | row (r : RowView)
+  | col (c : List FVal)
+  | none
+  deriving DecidableEq, Inhabited
+
+def Table.getItem (t : Table) (key : Sum Int Key) : Except Exc Got :=
+  match key with
+  | .inl i => Got.row <$> t.getByIndex i
+  | .inr k =>
+    let asCol : Option (List FVal) := match k with
+      | [s] => if t.cols.contains s then t.getCol s else Option.none
+      | _ => Option.none
+    match asCol with
+    | some c => .ok (.col c)
+    | Option.none =>
+      match t.getByName k with
+      | some r => .ok (.row r)
+      | Option.none => .ok .none
 
 /-- `self._data[i, :] = value` (numpy: the list must have one value per column, or a single value) -/
 def Table.setRowAt (t : Table) (i : Nat) (vals : List FVal) : Except Exc Table :=
